@@ -185,22 +185,29 @@ Theorem C10_never_over_length :
 Proof. exact never_over_length. Qed.
 Print Assumptions C10_never_over_length.
 
-(* A PEER-LEARNED LENGTH IS FORGOTTEN (fix 1ef0969).  A blob requested with an unknown length: whatever length a peer
-   announces and whatever happens afterwards, once that download has ended "closed" or "cancelled" without the blob
-   being verified, the blob's length is unknown again ... *)
-Theorem C10_peer_learned_length_forgotten :
-  forall (H : bytes -> bytes) (json_loads : bytes -> jres) (c0 : client) (hash : bytes) (evs : list event),
-    let c := run H json_loads (request hash None c0) evs in
-    failed (c_phase c) -> c_verified c = None -> c_len c = None /\ c_att c = false.
-Proof. exact peer_learned_length_forgotten. Qed.
-Print Assumptions C10_peer_learned_length_forgotten.
+(* KNOWN FINDING race-length-poison, machine-checked in the model of the code as it is.  A length once stored in the
+   blob (e.g. by a lying peer's header, before anything is verified) is never changed or forgotten, whatever happens
+   to that download afterwards ... *)
+Theorem C10_announced_length_never_forgotten_refuted :
+  forall (H : bytes -> bytes) (json_loads : bytes -> jres) (evs : list event) (c : client) (L : Z),
+    c_len c = Some L -> c_len (run H json_loads c evs) = Some L.
+Proof. exact announced_length_never_forgotten. Qed.
+Print Assumptions C10_announced_length_never_forgotten_refuted.
 
-(* ... so a later honest download of the same blob is not refused for its length (with C10_request_starts and
-   C10_honest_transfer_completes, instantiated with known = None, it completes). *)
-Theorem C10_retry_not_refused_for_length :
-  forall (hash : bytes) (n : Z) (r : response), acceptable hash (Some n) r = true -> acceptable hash None r = true.
-Proof. exact retry_not_refused_for_length. Qed.
-Print Assumptions C10_retry_not_refused_for_length.
+(* ... and with a wrong length L in the blob, the honest response announcing the true length n <> L is refused. *)
+Theorem C10_poisoned_length_refuses_refuted :
+  forall (hash : bytes) (L n : Z) (r : response),
+    r_blob r = BrIncoming (Some hash) (LInt n) -> n <> L -> acceptable hash (Some L) r = false.
+Proof. exact poisoned_length_refuses. Qed.
+Print Assumptions C10_poisoned_length_refuses_refuted.
+
+(* the whole scenario on a concrete instance: 24-byte blob requested by hash only, a peer announces 25 and closes
+   (download cancelled, nothing verified, blob.length = 25), then the honest peer on the same blob is refused *)
+Example C10_ex_length_poison_refuted :
+  c_phase poisoned = PhDone DlCancelled /\ c_verified poisoned = None /\ c_len poisoned = Some 25 /\
+  let retry := drain (run toy_H toy_json2 (request T_HASH (c_len poisoned) poisoned) [EvData T_HDR; EvDrain; EvData T_WIT]) in
+  c_phase retry = PhDone (DlClosed 0) /\ c_verified retry = None /\ c_open retry = false.
+Proof. exact length_poison_refuted_instance. Qed.
 
 (* RESPONSE CAP: the client never holds more than MAX_RESPONSE_SIZE unrecognised bytes ... *)
 Theorem C10_client_buffer_bounded :
